@@ -1459,3 +1459,141 @@ pub fn gas_inspector_differential() -> String {
     }
     out
 }
+
+// ---------------------------------------------------------------- operation, then checkpoint_revert: the journaled state is what it was at the checkpoint
+pub fn journal_roundtrip() -> String {
+    use revm::primitives::{Log, LogData};
+    let a = CALLER;
+    let b = TARGET;
+    let fresh = address!("00000000000000000000000000000000000000f7");
+    let mut out = String::new();
+    let base = |spec: SpecId| -> (JournaledState, CacheDB<EmptyDB>) {
+        let mut db = CacheDB::new(EmptyDB::default());
+        db.insert_account_info(a, AccountInfo { nonce: 3, balance: U256::from(1000), code_hash: revm::primitives::KECCAK_EMPTY, code: None });
+        db.insert_account_info(b, AccountInfo { nonce: 1, balance: U256::from(50), code_hash: revm::primitives::KECCAK_EMPTY, code: None });
+        db.insert_account_storage(a, U256::from(1), U256::from(11)).unwrap();
+        let mut js = JournaledState::new(spec, HashSet::default());
+        // everything the operations touch is loaded (warm) before the checkpoint, so that only the operation itself is journalled
+        let _ = js.load_account(a, &mut db).unwrap();
+        let _ = js.load_account(b, &mut db).unwrap();
+        let _ = js.load_account(fresh, &mut db).unwrap();
+        let _ = js.sload(a, U256::from(1), &mut db).unwrap();
+        let _ = js.sload(a, U256::from(2), &mut db).unwrap();
+        let _ = js.sload(fresh, U256::from(4), &mut db).unwrap();
+        js.tstore(a, U256::from(9), U256::from(90));
+        (js, db)
+    };
+    let mut case = |name: &str, spec: SpecId, op: &dyn Fn(&mut JournaledState, &mut CacheDB<EmptyDB>)| {
+        let (mut js, mut db) = base(spec);
+        let before = js.clone();
+        let cp = js.checkpoint();
+        op(&mut js, &mut db);
+        let changed = js.state != before.state || js.transient_storage != before.transient_storage || js.logs != before.logs;
+        js.checkpoint_revert(cp);
+        let same = js == before;
+        out += &format!("[roundtrip {} op_changed_something={} restored={}{}] ", name, changed, same, if same && changed { "" } else { " MISMATCH" });
+    };
+    case("transfer", SpecId::CANCUN, &|js, db| { let _ = js.transfer(&a, &b, U256::from(5), db).unwrap(); });
+    case("inc_nonce", SpecId::CANCUN, &|js, _| { let _ = js.inc_nonce(a); });
+    case("set_code", SpecId::CANCUN, &|js, _| js.set_code(a, Bytecode::new_legacy(Bytes::from_static(&[0x60, 0x01, 0x00]))));
+    case("sstore existing slot", SpecId::CANCUN, &|js, db| { let _ = js.sstore(a, U256::from(1), U256::from(77), db).unwrap(); });
+    case("sstore empty slot", SpecId::CANCUN, &|js, db| { let _ = js.sstore(a, U256::from(2), U256::from(78), db).unwrap(); });
+    case("sstore twice", SpecId::CANCUN, &|js, db| { let _ = js.sstore(a, U256::from(1), U256::from(77), db).unwrap(); let _ = js.sstore(a, U256::from(1), U256::from(79), db).unwrap(); });
+    case("tstore new key", SpecId::CANCUN, &|js, _| js.tstore(a, U256::from(8), U256::from(80)));
+    case("tstore overwrite", SpecId::CANCUN, &|js, _| js.tstore(a, U256::from(9), U256::from(91)));
+    case("tstore to zero", SpecId::CANCUN, &|js, _| js.tstore(a, U256::from(9), U256::ZERO));
+    case("log", SpecId::CANCUN, &|js, _| js.log(Log { address: a, data: LogData::new_unchecked(vec![], Bytes::from_static(&[1, 2, 3])) }));
+    case("touch", SpecId::CANCUN, &|js, _| js.touch(&b));
+    case("selfdestruct to other (Shanghai)", SpecId::SHANGHAI, &|js, db| { let _ = js.selfdestruct(a, b, db).unwrap(); });
+    case("selfdestruct to self (Shanghai)", SpecId::SHANGHAI, &|js, db| { let _ = js.selfdestruct(a, a, db).unwrap(); });
+    case("selfdestruct to other (Cancun, not created)", SpecId::CANCUN, &|js, db| { let _ = js.selfdestruct(a, b, db).unwrap(); });
+    case("selfdestruct twice (Shanghai)", SpecId::SHANGHAI, &|js, db| { let _ = js.selfdestruct(a, b, db).unwrap(); let _ = js.selfdestruct(a, b, db).unwrap(); });
+    case("create account", SpecId::CANCUN, &|js, _| { let _ = js.create_account_checkpoint(a, fresh, false, U256::from(7), SpecId::CANCUN).unwrap(); js.checkpoint_commit(); });
+    case("create account then write storage", SpecId::CANCUN, &|js, db| {
+        let _ = js.create_account_checkpoint(a, fresh, false, U256::from(7), SpecId::CANCUN).unwrap();
+        let _ = js.sstore(fresh, U256::from(4), U256::from(44), db).unwrap();
+        js.checkpoint_commit();
+    });
+    case("inner checkpoint committed, outer reverted", SpecId::CANCUN, &|js, db| {
+        let _ = js.transfer(&a, &b, U256::from(5), db).unwrap();
+        let _inner = js.checkpoint();
+        let _ = js.inc_nonce(b);
+        let _ = js.sstore(a, U256::from(1), U256::from(5), db).unwrap();
+        js.checkpoint_commit();
+        js.tstore(b, U256::from(1), U256::from(2));
+    });
+    case("inner checkpoint reverted, outer reverted", SpecId::CANCUN, &|js, db| {
+        let _ = js.inc_nonce(a);
+        let inner = js.checkpoint();
+        let _ = js.transfer(&b, &a, U256::from(1), db).unwrap();
+        js.checkpoint_revert(inner);
+        let _ = js.inc_nonce(a);
+    });
+    // an inner revert alone must keep what the outer frame did before it
+    {
+        let (mut js, mut db) = base(SpecId::CANCUN);
+        let _ = js.inc_nonce(a);
+        let mid = js.clone();
+        let inner = js.checkpoint();
+        let _ = js.transfer(&a, &b, U256::from(5), &mut db).unwrap();
+        let _ = js.sstore(a, U256::from(1), U256::from(3), &mut db).unwrap();
+        js.checkpoint_revert(inner);
+        out += &format!("[roundtrip inner revert keeps the outer frame's changes restored={}{}] ", js == mid, if js == mid { "" } else { " MISMATCH" });
+        // a commit keeps everything
+        let c = js.checkpoint();
+        let _ = js.inc_nonce(b);
+        let n = js.state.get(&b).unwrap().info.nonce;
+        js.checkpoint_commit();
+        let kept = js.state.get(&b).unwrap().info.nonce == n && js.depth() == mid.depth();
+        let _ = c;
+        out += &format!("[roundtrip commit keeps the changes kept={}{}] ", kept, if kept { "" } else { " MISMATCH" });
+    }
+    // cold loads inside a reverted frame are forgotten: the next access is cold again
+    {
+        let mut db = CacheDB::new(EmptyDB::default());
+        db.insert_account_info(a, AccountInfo { nonce: 3, balance: U256::from(1000), code_hash: revm::primitives::KECCAK_EMPTY, code: None });
+        db.insert_account_storage(a, U256::from(1), U256::from(11)).unwrap();
+        let mut js = JournaledState::new(SpecId::CANCUN, HashSet::default());
+        let cp = js.checkpoint();
+        let c1 = js.load_account(a, &mut db).unwrap().is_cold;
+        let s1 = js.sload(a, U256::from(1), &mut db).unwrap().is_cold;
+        js.checkpoint_revert(cp);
+        let c2 = js.load_account(a, &mut db).unwrap().is_cold;
+        let s2 = js.sload(a, U256::from(1), &mut db).unwrap().is_cold;
+        let ok = c1 && s1 && c2 && s2;
+        out += &format!("[roundtrip cold loads forgotten account={}->{} slot={}->{}{}] ", c1, c2, s1, s2, if ok { "" } else { " MISMATCH" });
+    }
+    // a slot that was warm before a creation at its address is still warm after the creation is reverted (e.g. an access-list key)
+    {
+        let (mut js, mut db) = base(SpecId::CANCUN);
+        let warm_before = !js.state.get(&fresh).unwrap().storage.get(&U256::from(4)).unwrap().is_cold;
+        let cp = js.create_account_checkpoint(a, fresh, false, U256::from(7), SpecId::CANCUN).unwrap();
+        js.checkpoint_revert(cp);
+        let again = js.sload(fresh, U256::from(4), &mut db).unwrap().is_cold;
+        out += &format!("[roundtrip warm slot survives a reverted creation warm_before={} cold_after={}{}] ", warm_before, again, if warm_before && !again { "" } else { " MISMATCH" });
+    }
+    // a write over a slot that was already dirty at the checkpoint goes back to the dirty value, not to the original one
+    {
+        let (mut js, mut db) = base(SpecId::CANCUN);
+        let _ = js.sstore(a, U256::from(1), U256::from(77), &mut db).unwrap();
+        let before = js.clone();
+        let cp = js.checkpoint();
+        let _ = js.sstore(a, U256::from(1), U256::from(79), &mut db).unwrap();
+        js.checkpoint_revert(cp);
+        let v = js.state.get(&a).unwrap().storage.get(&U256::from(1)).unwrap().present_value;
+        out += &format!("[roundtrip sstore over a dirty slot value={} restored={}{}] ", v, js == before, if js == before { "" } else { " MISMATCH" });
+    }
+    // the forward side of two operations: a nonce bump and a code change mark the account touched (state clearing relies on it)
+    {
+        let (mut js, _db) = base(SpecId::CANCUN);
+        let t0 = js.state.get(&b).unwrap().is_touched();
+        let _ = js.inc_nonce(b);
+        let t1 = js.state.get(&b).unwrap().is_touched();
+        out += &format!("[roundtrip inc_nonce touches the account before={} after={}{}] ", t0, t1, if !t0 && t1 { "" } else { " MISMATCH" });
+        let (mut js, _db) = base(SpecId::CANCUN);
+        js.set_code(b, Bytecode::new_legacy(Bytes::from_static(&[0x00])));
+        let t1 = js.state.get(&b).unwrap().is_touched();
+        out += &format!("[roundtrip set_code touches the account after={}{}] ", t1, if t1 { "" } else { " MISMATCH" });
+    }
+    out
+}
